@@ -19,7 +19,7 @@ COQ = os.path.join(VERIF, 'coq')
 REPO = os.environ.get('VERIF_REPO', '/repo')
 PY = '/venv/bin/python'
 PYVT = shutil.which('python3-vt') or '/opt/veriftools/pyvenv/bin/python'
-NCPU = 16
+NCPU = int(os.environ.get('VERIF_JOBS', '16'))
 
 FORBIDDEN = re.compile(
     r'\b(Admitted|admit|Axiom|Axioms|Parameter|Parameters|Conjecture|Conjectures|'
@@ -142,6 +142,23 @@ def regenerate(ctx=None):
     return status
 
 
+def write_coqproject():
+    """_CoqProject lists every .v file under the development's directories (rewritten only
+    when the set of files changed, so the Makefile is regenerated exactly then)."""
+    files = []
+    for d in ('Base', 'Gen', 'Model', 'Proofs', 'Properties', 'Check'):
+        dd = os.path.join(COQ, d)
+        if os.path.isdir(dd):
+            for fn in sorted(os.listdir(dd)):
+                if fn.endswith('.v') and not fn.startswith('.'):
+                    files.append('%s/%s' % (d, fn))
+    text = '-Q . PC\n' + '\n'.join(files) + '\n'
+    cp = os.path.join(COQ, '_CoqProject')
+    if not os.path.exists(cp) or open(cp).read() != text:
+        with open(cp, 'w') as f:
+            f.write(text)
+
+
 def build(ctx=None, clean=False, target=None):
     """Regenerate fragments and (incrementally) build the whole development.
     Returns (ok, log, regen_status)."""
@@ -150,6 +167,7 @@ def build(ctx=None, clean=False, target=None):
         regen = regenerate(ctx)
         mk = os.path.join(COQ, 'Makefile')
         cp = os.path.join(COQ, '_CoqProject')
+        write_coqproject()
         if clean and os.path.exists(mk):
             subprocess.run(['make', 'clean'], cwd=COQ, capture_output=True, timeout=300)
         if (not os.path.exists(mk)) or os.path.getmtime(mk) < os.path.getmtime(cp):
@@ -336,6 +354,18 @@ def load_known():
     if not os.path.exists(p):
         return []
     return json.load(open(p)).get('findings', [])
+
+
+def add_known_entry(kind, entry):
+    """Development-time helper (never called by a check): atomically add a finding
+    ({'property','signature','what','witness'}) or a 'fixed: ...' string to known_findings.json."""
+    p = os.path.join(VERIF, 'known_findings.json')
+    with open(p + '.lock', 'w') as lk:
+        fcntl.flock(lk, fcntl.LOCK_EX)
+        d = json.load(open(p))
+        d.setdefault(kind, []).append(entry)
+        with open(p, 'w') as f:
+            json.dump(d, f, indent=1)
 
 
 def write_replay(ctx, n, body):
